@@ -279,4 +279,148 @@ Section Iter.
     | (st, IEnd) => st = REACHED_END /\ S (pos r p) = length (elements r)
     end.
   Proof. intros r p [h Hr] Hv. apply (increment_pos_kids h); auto. apply Hr. Qed.
+
+  (* ---------------------------------------------------------------- 4. btree_begin *)
+  Lemma begin_pos : forall t : tree, Inv rank L I t ->
+    match btree_begin t with
+    | IAt p => valid (root t) p /\ pos (root t) p = 0 /\ elements (root t) <> []
+    | IEnd => elements (root t) = []
+    end.
+  Proof.
+    intros t ([h Hr] & Hasc & Hsz). unfold btree_begin. destruct (0 <? size t)%Z eqn:E.
+    - assert (Hne : elements (root t) <> []).
+      { intros Hnil. rewrite Hnil in Hsz. cbn [length] in Hsz. lia. }
+      destruct (leftmost_pos_kids h (root t) (root_ok_kids _ _ Hr) Hne) as [Hv Hp]. auto.
+    - destruct (elements (root t)); [reflexivity|]. cbn [length] in Hsz. lia.
+  Qed.
+
+  (* ---------------------------------------------------------------- 6. iter_equals *)
+  Lemma path_eqb_spec : forall p q : list nat,
+    (length p =? length q) && forallb (fun x => fst x =? snd x) (combine p q) = true <-> p = q.
+  Proof.
+    induction p as [|i p IH]; intros [|j q]; cbn [length combine forallb fst snd]; split; intros H;
+      try reflexivity; try discriminate.
+    - apply andb_true_iff in H as [H1 H2]. apply andb_true_iff in H2 as [H2 H3].
+      apply Nat.eqb_eq in H2. f_equal; [assumption|]. apply IH.
+      apply andb_true_iff. split; [|assumption]. apply Nat.eqb_eq. apply Nat.eqb_eq in H1. lia.
+    - injection H as Hi Hp. apply IH in Hp. apply andb_true_iff in Hp as [H1 H2].
+      apply andb_true_iff. split; [|apply andb_true_iff; split; [apply Nat.eqb_eq; assumption|assumption]].
+      apply Nat.eqb_eq. apply Nat.eqb_eq in H1. lia.
+  Qed.
+
+  Lemma iter_equals_spec : forall a b, iter_equals a b = true <-> a = b.
+  Proof.
+    intros [|p] [|q]; cbn [iter_equals]; split; intros H; try reflexivity; try discriminate.
+    - f_equal. apply path_eqb_spec. assumption.
+    - apply path_eqb_spec. congruence.
+  Qed.
+
+  (* ---------------------------------------------------------------- 5. positions identify paths *)
+  Lemma pre_mono : forall (vs : list elt) cs i j, i < j -> j <= length vs -> j <= length cs ->
+    length (pre vs cs i) + length (elements (nth i cs dnode)) + 1 <= length (pre vs cs j).
+  Proof.
+    intros vs cs i j Hij. induction j as [|j IH]; intros Hj Hc; [lia|].
+    rewrite (pre_S _ rank dflt vs cs j) by lia. rewrite !app_length. cbn [length].
+    destruct (Nat.eq_dec i j) as [->|Hne]; [lia|]. assert (i < j) by lia. specialize (IH H). lia.
+  Qed.
+
+  (* bounds of the position of a path through child i *)
+  Lemma pos_bounds : forall h (vs : list elt) cs i q, kids_ok L I h (Inode vs cs) -> valid (Inode vs cs) (i :: q) ->
+    length (pre vs cs i) <= pos (Inode vs cs) (i :: q) /\
+    pos (Inode vs cs) (i :: q) <= length (pre vs cs i) + length (elements (nth i cs dnode)) /\
+    (pos (Inode vs cs) (i :: q) = length (pre vs cs i) + length (elements (nth i cs dnode)) <-> q = []).
+  Proof.
+    intros h vs cs i [|j q] Hk Hv.
+    - rewrite pos_single_inode. repeat split; auto; lia.
+    - apply (proj1 (valid_cons _ _ _ _)) in Hv as (_ & Hi & Hv).
+      change (n_vals (Inode vs cs)) with (length vs) in Hi.
+      change (child (Inode vs cs) i) with (nth i cs dnode) in Hv.
+      destruct h as [|h]; [exact (False_ind _ Hk)|].
+      pose proof (kids_ok_child _ rank dflt L I HI HI3 h vs cs i Hk Hi) as Hw.
+      apply (wfn_kids_ok _ rank dflt L I HI HI3) in Hw.
+      destruct (get_pos_kids _ h _ Hw Hv) as [Hlt _].
+      rewrite pos_cons_inode. repeat split; try lia. discriminate.
+  Qed.
+
+  Lemma pos_inj_kids : forall p q h (n : node), kids_ok L I h n -> valid n p -> valid n q ->
+    pos n p = pos n q -> p = q.
+  Proof.
+    induction p as [|i p IH]; intros q h n Hk Hp Hq E; [exact (False_ind _ Hp)|].
+    destruct q as [|j q]; [exact (False_ind _ Hq)|].
+    destruct n as [vs|vs cs].
+    - destruct p as [|i' p]; [|apply (proj1 (valid_cons _ _ _ _)) in Hp as (Hl & _); discriminate].
+      destruct q as [|j' q]; [|apply (proj1 (valid_cons _ _ _ _)) in Hq as (Hl & _); discriminate].
+      rewrite !pos_leaf in E. congruence.
+    - pose proof (pos_bounds h vs cs i p Hk Hp) as (Ha1 & Ha2 & Ha3).
+      pose proof (pos_bounds h vs cs j q Hk Hq) as (Hb1 & Hb2 & Hb3).
+      assert (Hi : i <= length vs).
+      { destruct p; [apply (proj1 (valid_single _ _)) in Hp|apply (proj1 (valid_cons _ _ _ _)) in Hp as (_ & Hp & _)];
+          change (n_vals (Inode vs cs)) with (length vs) in Hp; lia. }
+      assert (Hj : j <= length vs).
+      { destruct q; [apply (proj1 (valid_single _ _)) in Hq|apply (proj1 (valid_cons _ _ _ _)) in Hq as (_ & Hq & _)];
+          change (n_vals (Inode vs cs)) with (length vs) in Hq; lia. }
+      destruct h as [|h]; [exact (False_ind _ Hk)|].
+      assert (Hl : length cs = S (length vs)) by apply Hk.
+      assert (i = j).
+      { destruct (Nat.lt_trichotomy i j) as [Hlt|[Heq|Hgt]]; [|assumption|].
+        - pose proof (pre_mono vs cs i j Hlt Hj ltac:(lia)). lia.
+        - pose proof (pre_mono vs cs j i Hgt Hi ltac:(lia)). lia. }
+      subst j. f_equal.
+      destruct p as [|i' p], q as [|j' q]; try reflexivity.
+      + exfalso. assert (j' :: q = []) by (apply Hb3; rewrite <- E; apply Ha3; reflexivity). discriminate.
+      + exfalso. assert (i' :: p = []) by (apply Ha3; rewrite E; apply Hb3; reflexivity). discriminate.
+      + apply (proj1 (valid_cons _ _ _ _)) in Hp as (_ & _ & Hp).
+        apply (proj1 (valid_cons _ _ _ _)) in Hq as (_ & _ & Hq).
+        change (child (Inode vs cs) i) with (nth i cs dnode) in Hp, Hq.
+        pose proof (kids_ok_child _ rank dflt L I HI HI3 h vs cs i Hk Hi) as Hw.
+        apply (wfn_kids_ok _ rank dflt L I HI HI3) in Hw.
+        rewrite !pos_cons_inode in E. apply (IH _ h _ Hw Hp Hq). lia.
+  Qed.
+
+  Lemma pos_inj : forall (r : node) p q, shape_ok L I r -> valid r p -> valid r q -> pos r p = pos r q -> p = q.
+  Proof. intros r p q [h Hr] Hp Hq E. apply (pos_inj_kids p q h r); auto. apply Hr. Qed.
+
+  (* ---------------------------------------------------------------- 7./8. walking *)
+  Lemma walk_end : forall fuel (r : node), walk dflt fuel r IEnd = [].
+  Proof. intros [|f] r; reflexivity. Qed.
+
+  Theorem walk_suffix : forall (r : node) p fuel, shape_ok L I r -> valid r p ->
+    length (elements r) - pos r p <= fuel ->
+    walk dflt fuel r (IAt p) = skipn (pos r p) (elements r).
+  Proof.
+    intros r p fuel Hr. revert p. induction fuel as [|f IH]; intros p Hv Hf.
+    - destruct (get_pos r p Hr Hv) as [Hlt _]. lia.
+    - destruct (get_pos r p Hr Hv) as [Hlt Hget].
+      change (walk dflt (S f) r (IAt p))
+        with (iter_get dflt r (IAt p) :: walk dflt f r (snd (iter_increment r (IAt p)))).
+      rewrite Hget. rewrite (skipn_nth_cons (elements r) (pos r p) dflt) by assumption. f_equal.
+      pose proof (increment_pos r p Hr Hv) as Hinc.
+      destruct (iter_increment r (IAt p)) as [st [|q]]; cbn [snd].
+      + destruct Hinc as [_ Hinc]. rewrite walk_end. rewrite Hinc. rewrite skipn_all. reflexivity.
+      + destruct Hinc as (_ & Hq & Hpq). rewrite IH by (auto; lia). rewrite Hpq. reflexivity.
+  Qed.
+
+  Theorem iteration : forall t : tree, Inv rank L I t ->
+    walk dflt (S (length (elements (root t)))) (root t) (btree_begin t) = elements (root t).
+  Proof.
+    intros t Ht. pose proof (begin_pos t Ht) as Hb. destruct (btree_begin t) as [|p].
+    - rewrite Hb. reflexivity.
+    - destruct Hb as (Hv & Hp & _).
+      rewrite walk_suffix; [rewrite Hp; reflexivity|exact (Inv_shape _ rank dflt L I HI HI3 t Ht)|assumption|lia].
+  Qed.
+
+  (* ---------------------------------------------------------------- 9. equality of iterators *)
+  Theorem iter_equals_iff_same_position : forall (r : node) a b, shape_ok L I r ->
+    iter_valid r a -> iter_valid r b ->
+    (iter_equals a b = true <-> iter_pos r a = iter_pos r b).
+  Proof.
+    intros r a b Hr Ha Hb. rewrite iter_equals_spec.
+    destruct a as [|p], b as [|q]; cbn [iter_pos iter_valid] in *; split; intros H;
+      try reflexivity; try discriminate.
+    - congruence.
+    - f_equal. apply (pos_inj r p q); auto. congruence.
+  Qed.
 End Iter.
+
+Global Arguments up_in {elt}.
+Global Arguments next_in {elt}.
